@@ -347,25 +347,31 @@ func runC29(c *fw.Ctx) {
 	}
 	for _, ic := range incomplete {
 		ic := ic
-		var bad plumbing.Hash
+		badOf := func(r *git.Repository) plumbing.Hash {
+			ref, err := r.Reference("refs/heads/bad", true)
+			if err != nil {
+				fw.Abort("refs/heads/bad: %v", err)
+			}
+			return ref.Hash()
+		}
 		prep := func(w *mcfs.World) {
-			bad = c29Commit(w, c2, ic.entries)
+			bad := c29Commit(w, c2, ic.entries)
 			r, _, _ := openRepo(w, "/wt/.git", "/wt")
 			if err := r.Storer.SetReference(plumbing.NewHashReference("refs/heads/bad", bad)); err != nil {
 				fw.Abort("prep ref: %v", err)
 			}
 		}
 		add("Reset(hard) to a commit of which "+ic.name, "Reset(hard, incomplete commit)", "Reset(hard)", prep, func(r *git.Repository, w *mcfs.World) error {
-			return wtOf(r).Reset(&git.ResetOptions{Mode: git.HardReset, Commit: bad})
+			return wtOf(r).Reset(&git.ResetOptions{Mode: git.HardReset, Commit: badOf(r)})
 		})
 		add("Reset(mixed) to a commit of which "+ic.name, "Reset(mixed, incomplete commit)", "Reset(mixed)", prep, func(r *git.Repository, w *mcfs.World) error {
-			return wtOf(r).Reset(&git.ResetOptions{Mode: git.MixedReset, Commit: bad})
+			return wtOf(r).Reset(&git.ResetOptions{Mode: git.MixedReset, Commit: badOf(r)})
 		})
 		add("Checkout(branch) of a commit of which "+ic.name, "Checkout(incomplete commit)", "Checkout", prep, func(r *git.Repository, w *mcfs.World) error {
 			return wtOf(r).Checkout(&git.CheckoutOptions{Branch: "refs/heads/bad"})
 		})
 		add("Merge(fast-forward) to a commit of which "+ic.name, "Merge", "", prep, func(r *git.Repository, w *mcfs.World) error {
-			return r.Merge(*plumbing.NewHashReference("refs/heads/bad", bad), git.MergeOptions{Strategy: git.FastForwardMerge})
+			return r.Merge(*plumbing.NewHashReference("refs/heads/bad", badOf(r)), git.MergeOptions{Strategy: git.FastForwardMerge})
 		})
 	}
 	// --- detached HEAD (HEAD holds a hash): the same refusals take the other branch of setHEADCommit
@@ -452,13 +458,14 @@ func runC29(c *fw.Ctx) {
 	var jobs []job
 	counts := make([]int, len(scenarios))
 	prepped := make([]*mcfs.World, len(scenarios))
-	for si, s := range scenarios {
+	// preparation and the dry run that counts the fault sites are independent per scenario: done in parallel
+	c.ParDo(len(scenarios), 0, func(si int) {
+		s := scenarios[si]
 		w := base.Clone()
 		if s.prep != nil {
 			s.prep(w)
 		}
 		prepped[si] = w
-		// dry run to count fault sites
 		d := w.Clone()
 		n := 0
 		d.SetHook(func(op *mcfs.Op) error {
@@ -476,6 +483,12 @@ func runC29(c *fw.Ctx) {
 			s.run(r, d)
 		}()
 		counts[si] = n
+	})
+	for si, s := range scenarios {
+		if prepped[si] == nil {
+			continue // deadline reached during preparation
+		}
+		n := counts[si]
 		jobs = append(jobs, job{si, -1})
 		if s.thoroughFaults && !c.Thorough() {
 			continue
